@@ -147,7 +147,7 @@ func level2(thorough bool) []*V {
 	o2 := objects(d2vals, keys)[1:]
 	for i, o := range o2 {
 		if thorough {
-			if i%3 == 0 {
+			if i%14 == 0 {
 				vals = append(vals, o)
 			}
 		} else if i%17 == 0 {
@@ -307,11 +307,24 @@ func TestVerif(t *testing.T) {
 	r.Bound("depth", 3)
 	r.Rule("every root object over keys {a,b,'a.b'} (two key orders) with values from the depth<=2 value list x every selector set up to the size bound x {keep_fields, remove_fields}; non-trivial = the reference result differs from the input; distinct = distinct (paths, result) pairs")
 
-	var roots []*V
-	for _, ko := range orders {
-		roots = append(roots, objects(vals, ko)...)
+	// root objects are built on demand (the thorough tier has several hundred thousand of them)
+	nv := len(vals) + 1
+	perOrder := nv * nv * nv
+	nroots := perOrder * len(orders)
+	rootAt := func(i int) *V {
+		ko := orders[i/perOrder]
+		c := i % perOrder
+		o := O()
+		for _, k := range ko {
+			j := c % nv
+			c /= nv
+			if j > 0 {
+				o.Fields = append(o.Fields, Field{k, vals[j-1].Clone()})
+			}
+		}
+		return o
 	}
-	r.Bound("root_objects", len(roots))
+	r.Bound("root_objects", nroots)
 	for si, set := range sets {
 		if !r.Mine(int64(si)) {
 			continue
@@ -322,10 +335,11 @@ func TestVerif(t *testing.T) {
 		}
 		rev := append([]string{}, set...)
 		sort.Sort(sort.Reverse(sort.StringSlice(rev)))
-		for di, doc := range roots {
+		for di := 0; di < nroots; di++ {
 			if di%512 == 0 && r.Expired() {
 				return
 			}
+			doc := rootAt(di)
 			c.check("remove_fields", set, paths, doc)
 			c.check("keep_fields", set, paths, doc)
 			if di%8 == 0 {
